@@ -169,7 +169,7 @@ def validate_shard(args):
     P, shard, workdir = args
     tag = "tr_" + os.path.basename(shard).replace(".ndjson", "")
     rc, out = run_tlc(P["trace"], P["trace"] + ".cfg", workdir, tag, env_extra={"TRACE": shard}, workers=1,
-                      xmx=P.get("trace_xmx", "3g"), timeout=P.get("trace_timeout", 1700), dfs=True)
+                      xmx=P.get("trace_xmx", "2g"), timeout=P.get("trace_timeout", 1700), dfs=True)
     verdicts, drifts, stats = [], [], []
     accepted = None
     for line in out.splitlines():
